@@ -9,10 +9,17 @@ const IDENT_LIKE: &[&str] = &[
     "x", "X", "foo", "Tom", "Sawyer", "élan", "Ünï", "жук", "日本", "λx", "abc1", "a1b", "1abc", "x_y",
     "_x", "x_", "a_1", "ab12cd", "q9", "don't", "rock'n'roll", "it's", "they're", "x's", "Y're", "o'",
     "'bout", "n", "s", "re", "K's", "İ're", "ẞ's", "Ω's", "K'", "aKa's", "Éa", "ÉLAN's", "é's",
+    // suffixes next to what ends or spoils a word
+    "Tommy's'", "x's''", "they're'", "Tommy2's", "a_b're", "x😀's", "ab1's", "x's's", "x're's", "x''s",
 ];
 const NUMBERS: &[&str] = &[
     "0", "1", "5", "42", "3.14", ".5", "5.", "1e3", "1E3", "1e", "1.2.3", "00", "0x10", "1e999", "٣", "½",
     "²", "12abc", "1..2", ".", "..", "1e+3", "1e-7", "0.0000001", "9007199254740993",
+    // around the integer types a "fast path" might use
+    "4294967295", "4294967296", "9223372036854775807", "9223372036854775808", "18446744073709551615", "18446744073709551616",
+    "99999999999999999999", "100000000000000000000", "340282366920938463463374607431768211456", "0.1e-400", "1e-999",
+    // a literal glued to an apostrophe and non-ASCII letters
+    "5'ü", "5'sé", "5'ré", "5's", "5'S", "5'RE", "\"s\"'été", "\"s\"'sé", "(c)'rêve", "(c)'é", "5'",
 ];
 const PUNCT: &[&str] = &[
     "!", "#", "$", "%", "&", "*", "+", ",", "-", ".", "/", ":", ";", "<", "<=", "=", ">", ">=", "?", "@", "[",
